@@ -22,7 +22,9 @@ def _case(draw, worlds):
             'spec': draw(gens.model_spec(max_layers=4, max_dim=6, max_out=5, nd_linear=False)),
             'in_hook': draw(st.booleans()), 'accum': draw(st.sampled_from([1, 1, 2])), 'N': draw(st.integers(1, 2)),
             'zero_to_none': draw(st.booleans()),
-            'hp': {'factor_update_steps': draw(st.integers(1, 3)), 'inv_update_steps': draw(st.integers(1, 5)), 'damping': 0.01,
+            # intervals: constants, or lookup tables t[step % len] so that the interval itself changes during the run
+            'hp': {'factor_update_steps': draw(st.one_of(st.integers(1, 3), st.integers(1, 3), st.lists(st.integers(1, 3), min_size=2, max_size=4).map(lambda t: {'table': t}))),
+                   'inv_update_steps': draw(st.one_of(st.integers(1, 5), st.integers(1, 5), st.lists(st.integers(1, 4), min_size=2, max_size=4).map(lambda t: {'table': t}))), 'damping': 0.01,
                    'factor_decay': 0.9, 'kl_clip': 1e-3, 'lr': 0.1},
             'inv_dtype': draw(st.sampled_from(['float32', 'float32', 'float64'])),
             'factor_dtype': draw(st.sampled_from([None, None, 'float64', 'bfloat16'])),
@@ -40,7 +42,7 @@ class C13(Prop):
     id = 'C13'
     title = 'Memory and communication placement follow the KAISA strategy'
     rule = ('Hypothesis draws W in {1,2,3,4,6,8}, a divisor k (float or enum), colocate, heuristic, bucket cap, symmetry-aware, method x '
-            'pre-division, inverse dtype, intervals (1-3, 1-5), 1-5 steps, model of 1-4 layers, a rank schedule. After every step each rank '
+            'pre-division, inverse dtype, intervals (1-3, 1-5) constant or tables that change the interval during the run, 1-5 steps, model of 1-4 layers, a rank schedule. After every step each rank '
             'reports the second-order tensors it holds (walk over the layer objects) and memory_usage(); the simulator records every '
             'collective. Oracle, from the independently derived W/k x k grid and the inverse workers read from rank 0: (a) holds second-order '
             'data for a layer iff the rank is in the layer\'s gradient-worker column; (b) memory_usage() per key and total == byte sum of the '
@@ -57,7 +59,7 @@ class C13(Prop):
     examples = {'quick': 150, 'thorough': 500}
     shards = {'quick': 4, 'thorough': 16}
     shrink_budget_s = {'quick': 30.0, 'thorough': 180.0}
-    required_labels = {'quick': ['nontrivial=True', 'strategy=HYBRID', 'strategy=MEM', 'strategy=COMM', 'symmetry=True', 'has_load=True'],
+    required_labels = {'quick': ['nontrivial=True', 'strategy=HYBRID', 'strategy=MEM', 'strategy=COMM', 'symmetry=True', 'has_load=True', 'changing_interval=True'],
                        'thorough': ['nontrivial=True', 'strategy=HYBRID', 'strategy=MEM', 'strategy=COMM', 'symmetry=True', 'bucketed=True']}
 
     def strategy(self, tier):
@@ -71,7 +73,9 @@ class C13(Prop):
         W, k = case['W'], case['k']
         n = W // k
         strat = 'COMM' if k == W else 'MEM' if k == 1 else 'HYBRID'
-        fus, ius = case['hp']['factor_update_steps'], case['hp']['inv_update_steps']
+        def _iv(v, t):
+            return v['table'][t % len(v['table'])] if isinstance(v, dict) else v
+        fus_v, ius_v = case['hp']['factor_update_steps'], case['hp']['inv_update_steps']
         program = []
         load_at = case.get('load_at')
         nsteps = case['steps'] if load_at is None else max(case['steps'], load_at + 1)
@@ -79,14 +83,15 @@ class C13(Prop):
         for t in range(nsteps):
             if load_at is not None and t == load_at:
                 # without inverses only when the next step recomputes them anyway (documented requirement)
-                load_ci = True if t % ius != 0 else bool(case.get('load_compute_inverses', True))
+                load_ci = True if t % _iv(ius_v, t) != 0 else bool(case.get('load_compute_inverses', True))
                 program.append({'op': 'load', 'compute_inverses': load_ci})
                 # queried right after the load, before any step has waited for the broadcasts the load started
                 program.append({'op': 'memory_usage', 'ranks': None})
             program.append({'op': 'train', 'seed': t})
             program.append({'op': 'memory_usage', 'ranks': None})
         labels = {'W': W, 'strategy': strat, 'method': case['method'], 'prediv': case['prediv'], 'symmetry': case['symmetry'],
-                  'bucketed': case['cap'] > 0, 'in_hook': case['in_hook'], 'steps': case['steps'], 'has_load': load_at is not None}
+                  'bucketed': case['cap'] > 0, 'in_hook': case['in_hook'], 'steps': case['steps'], 'has_load': load_at is not None,
+                  'changing_interval': isinstance(fus_v, dict) or isinstance(ius_v, dict)}
         res = kaisa.run_sim(case, program, case['schedule'], case['flip'], observe=('assignment', 'held'))
         if res.timed_out:
             raise RuntimeError('simulation timed out (harness)')
@@ -131,8 +136,8 @@ class C13(Prop):
                         return violation(f'right after a checkpoint load: rank {r}: memory_usage()[{key!r}] = {rep.get(key, 0)} but the tensors held amount to '
                                          f'{walk.get(key, 0)} bytes (reported {rep}, held {dict(walk)}; W={W}, k={k}, method={case["method"]})', 'memory-usage', labels=labels)
             for t, (tr, mu) in enumerate(zip(trains, mems)):
-                is_factor = t % fus == 0
-                is_refresh = t % ius == 0
+                is_factor = t % _iv(fus_v, t) == 0
+                is_refresh = t % _iv(ius_v, t) == 0
                 non_refresh |= not is_refresh
                 # (a) who holds second-order data
                 for nm in names:
